@@ -125,6 +125,12 @@ func (syncService *SyncService[H]) initStoreAndStartSyncer(ctx context.Context, 
 	// The initial header comes from a peer. Everything received later is only verified against the header
 	// before it, so this is the one place where the P2P header store is tied to genesis: without the check a
 	// peer could seed the store with a self-signed chain of another proposer.
+	// go-header validates what arrives through gossip and exchange sessions, but not the answer to the single
+	// request this header comes from (Exchange.Get / GetByHeight): validate it here, before it becomes the head
+	// everything else is verified against.
+	if err := initial.Validate(); err != nil {
+		return fmt.Errorf("initial header received from peers is invalid: %w", err)
+	}
 	if sh, ok := any(initial).(*types.SignedHeader); ok {
 		if !bytes.Equal(sh.ProposerAddress, syncService.genesis.ProposerAddress) {
 			return fmt.Errorf("initial header received from peers is not signed by the genesis proposer: proposer address %X, expected %X",
